@@ -253,6 +253,10 @@ def C02():
     for n in _cases_units():
         total += r_reg.run_jobs(chk, F.load(n), "R-REG.kernel", _kernel_jobs(("eval",)))
         chk.units.append(n)
+    # orders 4..6 (interval selection, end points, history clauses)
+    total += r_reg.run_jobs(chk, F.load(HIGH_UNIT), "R-REG.eval", _high_jobs("eval"))
+    chk.units.append(HIGH_UNIT)
+    chk.note("high_orders", HIGH_NOTE)
     chk.assume(KERNEL_ASSUME)
     chk.note("regions_evaluated", total)
     chk.note("grid_size_bound", nmax)
@@ -265,6 +269,29 @@ KERNEL_ASSUME = ("kernel values: every weight is a polynomial in the grid points
                  "operations only - the suite asserts that the kernel neither compares nor divides by data); agreement with "
                  "the specified polynomial on degree+1 distinct interval widths (and 2-3 offsets) is agreement for every "
                  "width; dependence on the absolute position beyond the sampled offsets is not excluded")
+
+
+HIGH_UNIT = "high_off"
+HIGH_NOTE = ("orders above the main driver grid: drivers/drv_high.cpp instantiates a reduced API slice for spline orders 4, 5, 6 "
+             "(results up to order 12); the same suites and specifications are evaluated there on small grids")
+
+
+def _high_jobs(kind, thorough=None):
+    """Suites on the high-order unit (orders 4..6).  kind: eval | arith | scalar | lincomb | all."""
+    th = (C.tier() == "thorough") if thorough is None else thorough
+    jobs = []
+    if kind in ("eval", "all"):
+        jobs += [("bsv.r_reg_spl", "eval_suite", dict(nmax=4, orders=(o,), ns=[n], fixed=False))
+                 for o in (4, 5, 6) for n in ((2, 3, 4) if th else (2, 3))]
+    if kind in ("arith", "all"):
+        prs = ((4, 4), (5, 5), (6, 6), (6, 2), (2, 6), (5, 4), (4, 5), (6, 0)) if th else ((4, 4), (6, 2), (2, 6), (5, 4))
+        jobs += [("bsv.r_reg_spl", "arithmetic_suite", dict(nmax=4, order_pairs=(pr,), ns=[n], fixed=(n == 3)))
+                 for pr in prs for n in ((3, 4) if th else (3,))]
+    if kind in ("scalar", "all"):
+        jobs += [("bsv.r_reg_spl", "scalar_suite", dict(nmax=3, orders=(o,), ns=[3], fixed=False)) for o in (4, 6)]
+    if kind in ("lincomb", "all"):
+        jobs += [("bsv.r_reg_spl", "lincomb_suite", dict(nmax=3, order=5, ns=[3], fixed=True))]
+    return jobs
 
 
 def _kernel_jobs(parts, **kw):
@@ -332,6 +359,15 @@ def C03():
         # the numeric Cauchy product: with b running over unit coefficient vectors every product coefficient is exactly
         # one coefficient of a (weights 1)
         total += r_reg.run_jobs(chk, u, "R-REG.kernel", _kernel_jobs(("mul",), order_pairs=tuple(pairs)))
+    # orders 4..6: framing, signs and term structure of the same operations (products up to order 12)
+    uh = F.load(HIGH_UNIT)
+    chk.units.append(HIGH_UNIT)
+    total += r_reg.run_jobs(chk, uh, "R-REG.arith", _high_jobs("arith"))
+    total += r_reg.run_jobs(chk, uh, "R-REG.scalar", _high_jobs("scalar"))
+    total += r_reg.run_jobs(chk, uh, "R-REG.lincomb", _high_jobs("lincomb"))
+    total += r_reg.run_jobs(chk, uh, "R-REG.kernel", [("bsv.r_reg_ops", "kernel_suite", dict(
+        ns=[2], parts=("mul",), order_pairs=((4, 4), (6, 2), (2, 6))))])
+    chk.note("high_orders", HIGH_NOTE)
     chk.note("regions_evaluated", total)
     chk.note("grid_size_bound", nmax)
     chk.note("order_pairs", [list(p) for p in pairs])
@@ -472,6 +508,13 @@ def C06():
         total += r_reg.run_jobs(chk, u, "R-REG.kernel", [
             ("bsv.r_reg_ops", "kernel_suite", dict(ns=[n_], parts=("bfops",), order_pairs=(pr,)))
             for n_ in (2, 3) for pr in ((1, 1), (2, 1), (0, 3), (2, 2))])
+        # "for every operator expression O": the forms integrate the TRANSFORMED pieces, so the expression's own value (exact
+        # linear image of the operand, incl. quotient nodes in context) and the factorial / binomial tables every X<n> / Dx<n>
+        # is built from are premises of this property too
+        total += r_reg.run_jobs(chk, u, "R-REG.kernel", [("bsv.r_reg_ops", "kernel_suite", dict(ns=[n_], parts=("ops",),
+                                                                                                 orders=(A,)))
+                                                         for n_ in (2, 3) for A in (0, 1, 2, 3)])
+        total += r_reg.run_jobs(chk, u, "R-REG.const", [("bsv.r_reg_ops", "constant_table_suite", dict(nmax=9))])
     chk.note("regions_evaluated", total)
     chk.exhaustive = True
     chk.floor("R-REG.bf", chk.rules["R-REG.bf"]["instances"], 6, "bilinear-form cases")
@@ -502,6 +545,13 @@ def C07():
         total += r_reg.run_jobs(chk, u, "R-REG.kernel", [
             ("bsv.r_reg_ops", "kernel_suite", dict(ns=[n_], parts=("lfops",), orders=(A,)))
             for n_ in (2, 3) for A in (0, 1, 2, 3)])
+        # "for every operator expression O": the forms integrate the TRANSFORMED pieces, so the expression's own value (exact
+        # linear image of the operand, incl. quotient nodes in context) and the factorial / binomial tables every X<n> / Dx<n>
+        # is built from are premises of this property too
+        total += r_reg.run_jobs(chk, u, "R-REG.kernel", [("bsv.r_reg_ops", "kernel_suite", dict(ns=[n_], parts=("ops",),
+                                                                                                 orders=(A,)))
+                                                         for n_ in (2, 3) for A in (0, 1, 2, 3)])
+        total += r_reg.run_jobs(chk, u, "R-REG.const", [("bsv.r_reg_ops", "constant_table_suite", dict(nmax=9))])
     chk.note("regions_evaluated", total)
     chk.exhaustive = True
     chk.floor("R-REG.lf", chk.rules["R-REG.lf"]["instances"], 5, "linear-form cases")
@@ -652,6 +702,14 @@ def C09():
         u = F.load(n)
         chk.units.append(n)
         total += r_reg.run_jobs(chk, u, "R-REG.ub", lib, view=r_reg.ub_view)
+        # the factorial / binomial helpers for arguments up to 24 (Dx<n>, X<n> of high order): an integer accumulator
+        # overflows from 21! on (signed: undefined behaviour)
+        total += r_reg.run_jobs(chk, u, "R-REG.ub", [("bsv.r_reg_ops", "constant_table_suite", dict(nmax=24))],
+                                view=r_reg.ub_view)
+    # orders 4..6: array sizes and loop bounds derived from the order
+    total += r_reg.run_jobs(chk, F.load(HIGH_UNIT), "R-REG.ub", _high_jobs("all"), view=r_reg.ub_view)
+    chk.units.append(HIGH_UNIT)
+    chk.note("high_orders", HIGH_NOTE)
     for n in _cases_units():
         u = F.load(n)
         chk.units.append(n)
